@@ -498,3 +498,118 @@ Proof.
   - destruct k as [|k]; [discriminate|]. simpl in H. change (last_opt (b :: l') = nth_error (b :: l') k).
     apply IH. simpl. lia.
 Qed.
+
+(* ================================================================================================ *)
+(* 7. Error trees: errors.As finds a layer iff one occurs anywhere in the tree                        *)
+(* ================================================================================================ *)
+Fixpoint err_ind' (P : err -> Prop) (Hb : P EBase) (Hw : forall l e, P e -> P (EWrap l e))
+         (Hj : forall es, Forall P es -> P (EJoin es)) (e : err) : P e :=
+  match e with
+  | EBase => Hb
+  | EWrap l e' => Hw l e' (err_ind' P Hb Hw Hj e')
+  | EJoin es =>
+    Hj es ((fix go (es : list err) : Forall P es :=
+              match es with
+              | [] => Forall_nil P
+              | x :: r => Forall_cons x (err_ind' P Hb Hw Hj x) (go r)
+              end) es)
+  end.
+
+Lemma find_layer_join_cons {A} (f : layer -> option A) x r :
+  find_layer f (EJoin (x :: r)) =
+  match find_layer f x with Some a => Some a | None => find_layer f (EJoin r) end.
+Proof. reflexivity. Qed.
+
+Lemma find_layer_occurs {A} (f : layer -> option A) e :
+  is_some (find_layer f e) = occurs (fun l => is_some (f l)) e.
+Proof.
+  induction e as [| l e IH | es IH] using err_ind'.
+  - reflexivity.
+  - simpl. destruct (f l); simpl; [reflexivity|exact IH].
+  - induction IH as [|x r Hx Hr IHr]; [reflexivity|].
+    rewrite find_layer_join_cons. cbn [occurs existsb]. rewrite <- Hx.
+    destruct (find_layer f x); simpl; [reflexivity|]. exact IHr.
+Qed.
+
+Lemma occurs_ext p q e : (forall l, p l = q l) -> occurs p e = occurs q e.
+Proof.
+  intros H. induction e as [| l e IH | es IH] using err_ind'.
+  - reflexivity.
+  - simpl. rewrite H, IH. reflexivity.
+  - induction IH as [|x r Hx Hr IHr]; [reflexivity|]. cbn [occurs existsb] in *. rewrite Hx, IHr. reflexivity.
+Qed.
+
+(* Prop-valued occurrence, for "the value found is carried by some layer of the tree" *)
+Fixpoint occursP (P : layer -> Prop) (e : err) : Prop :=
+  match e with
+  | EBase => False
+  | EWrap l e' => P l \/ occursP P e'
+  | EJoin es => (fix go (es : list err) : Prop := match es with [] => False | x :: r => occursP P x \/ go r end) es
+  end.
+
+Lemma occursP_join_cons P x r : occursP P (EJoin (x :: r)) = (occursP P x \/ occursP P (EJoin r)).
+Proof. reflexivity. Qed.
+
+Lemma find_layer_witness {A} (f : layer -> option A) e a :
+  find_layer f e = Some a -> occursP (fun l => f l = Some a) e.
+Proof.
+  induction e as [| l e IH | es IH] using err_ind'.
+  - discriminate.
+  - simpl. destruct (f l) eqn:F; [intros H; left; congruence|intros H; right; auto].
+  - induction IH as [|x r Hx Hr IHr]; [discriminate|].
+    rewrite find_layer_join_cons, occursP_join_cons.
+    destruct (find_layer f x) eqn:F; [intros H; left; apply Hx; congruence|intros H; right; auto].
+Qed.
+
+Definition is_perm_layer (l : layer) : bool := match l with LPerm => true | _ => false end.
+Definition is_shutdown_layer (l : layer) : bool := match l with LShutdown => true | _ => false end.
+Definition is_throttle_layer (l : layer) : bool := match l with LThrottle _ => true | _ => false end.
+Definition is_partial_layer (s : signal) (l : layer) : bool :=
+  match l with LPartial s' _ => signal_eqb s s' | _ => false end.
+
+Lemma is_permanent_occurs e : is_permanent e = occurs is_perm_layer e.
+Proof. unfold is_permanent. rewrite find_layer_occurs. apply occurs_ext. intros []; reflexivity. Qed.
+
+Lemma is_shutdown_occurs e : is_shutdown e = occurs is_shutdown_layer e.
+Proof. unfold is_shutdown. rewrite find_layer_occurs. apply occurs_ext. intros []; reflexivity. Qed.
+
+Lemma throttle_of_occurs e : is_some (throttle_of e) = occurs is_throttle_layer e.
+Proof. unfold throttle_of. rewrite find_layer_occurs. apply occurs_ext. intros []; reflexivity. Qed.
+
+Lemma partial_of_occurs s e : is_some (partial_of s e) = occurs (is_partial_layer s) e.
+Proof.
+  unfold partial_of. rewrite find_layer_occurs. apply occurs_ext. intros []; try reflexivity.
+  simpl. destruct (signal_eqb s s0); reflexivity.
+Qed.
+
+Lemma occursP_impl (P Q : layer -> Prop) e : (forall l, P l -> Q l) -> occursP P e -> occursP Q e.
+Proof.
+  intros I. induction e as [| l e IH | es IH] using err_ind'.
+  - auto.
+  - simpl. intros [H|H]; [left; auto|right; auto].
+  - induction IH as [|x r Hx Hr IHr]; [auto|]. rewrite !occursP_join_cons. intros [H|H]; [left; auto|right; auto].
+Qed.
+
+Lemma throttle_of_witness e d : throttle_of e = Some d -> occursP (fun l => l = LThrottle d) e.
+Proof.
+  intros H. apply find_layer_witness in H. revert H. apply occursP_impl.
+  intros l H. destruct l; try discriminate. congruence.
+Qed.
+
+Lemma partial_of_witness s e rem : partial_of s e = Some rem -> occursP (fun l => l = LPartial s rem) e.
+Proof.
+  intros H. apply find_layer_witness in H. revert H. apply occursP_impl.
+  intros l H. destruct l; try discriminate.
+  destruct (signal_eqb s s0) eqn:E; [|discriminate]. inversion H; subst.
+  destruct s, s0; try discriminate; reflexivity.
+Qed.
+
+(* a combination is permanent iff one of its members is; likewise shutdown-classified *)
+Lemma is_permanent_join es : is_permanent (EJoin es) = existsb is_permanent es.
+Proof.
+  rewrite is_permanent_occurs. cbn [occurs]. induction es as [|x r IH]; [reflexivity|].
+  cbn [existsb]. rewrite IH, is_permanent_occurs. reflexivity.
+Qed.
+
+Lemma is_permanent_wrap l e : is_permanent (EWrap l e) = is_perm_layer l || is_permanent e.
+Proof. rewrite !is_permanent_occurs. reflexivity. Qed.
